@@ -222,6 +222,8 @@ def check_c14(tier):
             src_root = sp
         elif c["install"] == "editable_in":
             src_root = os.path.join(ws, "plugsrc")
+        elif c["install"] == "editable_sibling":
+            src_root = os.path.join(root, "proj-plugins")
         else:
             src_root = os.path.join(root, "elsewhere", "plugsrc")
         os.makedirs(src_root, exist_ok=True)
